@@ -15,7 +15,7 @@ def run(ck):
     ck.cov["rule"] = ("case = one system run to quiescence; TLC-enumerated scripts on topologies with ticking components of periods 2 and 3 against connection periods 1 and 2, "
                       "plus seeded random systems with mixed frequencies; non-trivial = contains a ticking component that ticked at least twice.")
     ck.assumptions += ["a ticking component is started with TickNow at time 0"]
-    cfgs = ["TickImpl_q2.cfg", "TickImpl_q4.cfg"] if q else ["TickImpl_t2.cfg", "TickImpl_t4.cfg", "TickImpl_t3.cfg"]
+    cfgs = ["TickImpl_q2.cfg", "TickImpl_q4.cfg", "TickImpl_q1.cfg"] if q else ["TickImpl_t2.cfg", "TickImpl_t4.cfg", "TickImpl_t3.cfg"]
     lost, ok = tickcheck.model_behaviours(ck, cfgs, workers=8 if q else 16, cap=1500 if q else 30000)
     systems = [tickcheck.system_from_behaviour(b) for b in lost + ok]
     cases, out = tickcheck.run_and_monitor(ck, "model-scripts", systems=systems)
